@@ -441,6 +441,9 @@ def bind_params(E, fn, c, args, kw, st, qualname):
             out.update(kw)
             return out
         names = list(c.params or {}) if c is not None else []
+    if c is not None:
+        for n, dv in (getattr(c, "param_defaults", None) or {}).items():
+            defaults.setdefault(n, PyObj(dv) if not isinstance(dv, (str, int, bool)) else E.const(dv))
     out = {}
     if any(isinstance(a, tuple) and a and a[0] == "*" for a in args):
         raise OutsideSubset(f"splat of a symbolic sequence in call of {qualname}")
